@@ -169,9 +169,10 @@ class SearchKey(Parseable[bytes]):
             pass
         inverse = False
         match = cls._not_pattern.match(buf)
-        if match:
-            inverse = True
+        while match:
+            inverse = not inverse
             buf = buf[match.end(0):]
+            match = cls._not_pattern.match(buf)
         try:
             seq_set, buf = SequenceSet.parse(buf, params)
         except NotParseable:
